@@ -5,19 +5,12 @@ From Coq Require Import String List NArith ZArith Bool Lia Sorting.Permutation.
 From Pcfg Require Import ProbAlg Str Multiword Detect Segment TextFile TextFileProofs Counters CountersProofs LtallyProofs Reader
      DetectProofsStr DetectProofsDrive DetectProofsSimple DetectProofsMw DetectProofsSeg DetectProofsWeb DetectProofsKbd
      DetectProofsCount DetectProofsAdj DetectProofsPipe Pipeline.
+From Pcfg Require Export PipelineSpec.
 Import ListNotations.
 
 (* ------------------------------------------------------------------ *)
 (* the terminal counters, by the variable name the guesser gives them   *)
 (* ------------------------------------------------------------------ *)
-
-Definition lnamed (letter : N) (d : list (N * list (TextFile.str * N))) : list (TextFile.str * list (TextFile.str * N)) :=
-  map (fun lc => (letter :: dec_of_N (fst lc), snd lc)) d.
-
-(* in the order _load_terminals reads them: A, C, D, O, K, Y, X *)
-Definition term_counters (P : pcounters) : list (TextFile.str * list (TextFile.str * N)) :=
-  lnamed 65 (pc_alpha P) ++ lnamed 67 (pc_masks P) ++ lnamed 68 (pc_digits P) ++ lnamed 79 (pc_other P) ++
-  lnamed 75 (pc_keyboard P) ++ [([89; 49]%N, pc_years P)] ++ [([88; 49]%N, pc_context P)].
 
 (* (variable name, value) pairs one section contributes *)
 Definition sec_entries (E : env) (x : section) : list (TextFile.str * TextFile.str) :=
